@@ -305,6 +305,10 @@ func execPlanFreshFor(workdir string, plan []byte, prop string, v Violation) (*R
 	// task runs on, and under -race Pool.Put drops at random): a few attempts, first under the
 	// GOMAXPROCS of the process that saw the violation
 	gmps := []int{v.GOMAXPROCS, v.GOMAXPROCS}
+	if strings.HasPrefix(v.Oracle, "C15/cli-") {
+		// what a CLI child sees on its stdin pipe depends on kernel timing the simulator does not own
+		gmps = []int{v.GOMAXPROCS, v.GOMAXPROCS, v.GOMAXPROCS, v.GOMAXPROCS, v.GOMAXPROCS, v.GOMAXPROCS}
+	}
 	if prop == "C13" {
 		gmps = []int{v.GOMAXPROCS, v.GOMAXPROCS, 2, 16, 1, v.GOMAXPROCS, 2, 1}
 	}
